@@ -6,46 +6,4 @@ Also checks that the literal ↦ `Ctx`-field mapping of the translator agrees wi
 the source (`Gen/Consts.lean`).
 -/
 import RosedVerif.Model.GenCodeEq
-import RosedVerif.Model.InstAFacts
-namespace RosedVerif.GenCodeEq
-open RosedVerif
-
-theorem defaultsOk_cxA : DefaultsOk cxA := by
-  refine ⟨?_, ?_, ?_⟩ <;> decide
-
-/-- the translator maps `" "`, `"-"`, `"\n"`, `"A"`, `"+|-"` to these `Ctx` fields -/
-theorem literal_map_cxA :
-    cxA.sp = 0x20 ∧ cxA.hy = 0x2D ∧ cxA.nl = 0x0A ∧ cxA.phA = 0x41 ∧ cxA.dCharset = [0x2B, 0x7C, 0x2D] ∧
-    cxA.dLineSep = [0x0A] ∧ cxA.dParaSep = [0x0A, 0x0A] ∧ cxA.dIndent = [0x09] := by decide
-
-theorem editorChars_cxA (h : Gen.Code.editorChars_extracted = true) (ed : Editor Int) (s e : Int) :
-    Gen.Code.editorChars cxA ed s e = ed.chars cxA s e := editorChars_regenerated cxA h cxA_WF ed s e
-
-theorem editorLinesSel_cxA (h : Gen.Code.editorLinesSel_extracted = true) (ed : Editor Int) (s e : Int) :
-    Gen.Code.editorLinesSel cxA ed s e = ed.linesSel cxA s e := editorLinesSel_regenerated cxA h cxA_WF.2 ed s e
-
-theorem editorInsert_cxA (h : Gen.Code.editorInsert_extracted = true) (ed : Editor Int) (pos : Int) (t : List Int) :
-    Gen.Code.editorInsert cxA ed pos t = ed.insert cxA pos t := editorInsert_regenerated cxA h cxA_WF ed pos t
-
-theorem editorDelete_cxA (h : Gen.Code.editorDelete_extracted = true) (ed : Editor Int) (s e : Int) :
-    Gen.Code.editorDelete cxA ed s e = ed.delete cxA s e := editorDelete_regenerated cxA h cxA_WF ed s e
-
-theorem editorWrapOpts_cxA (h : Gen.Code.editorWrapOpts_extracted = true) (ed : Editor Int) (width : Int) (o : Options Int) :
-    Gen.Code.editorWrapOpts cxA ed width o = ed.wrapOpts cxA width o :=
-  editorWrapOpts_regenerated cxA h defaultsOk_cxA cxA_WF.2 ed width o
-
-theorem editorIndentOpts_cxA (h : Gen.Code.editorIndentOpts_extracted = true) (ed : Editor Int) (level : Int) (o : Options Int) :
-    Gen.Code.editorIndentOpts cxA ed level o = ed.indentOpts cxA level o :=
-  editorIndentOpts_regenerated cxA h defaultsOk_cxA cxA_WF.2 ed level o
-
-theorem editorApplyGParagraphsOpts_cxA (h : Gen.Code.editorApplyGParagraphsOpts_extracted = true) (ed : Editor Int)
-    (op : Int → List Int → List Int → List Int → R (List (List Int))) (o : Options Int) :
-    Gen.Code.editorApplyGParagraphsOpts cxA ed op o = ed.applyParasM cxA (fun i => op (i : Int)) o :=
-  editorApplyGParagraphsOpts_regenerated cxA h defaultsOk_cxA cxA_WF.2 ed op o
-
-theorem editorInsertTableOpts_cxA (h : Gen.Code.editorInsertTableOpts_extracted = true) (ed : Editor Int) (pos : Int)
-    (data : List (List (List Int))) (width : Int) (o : Options Int) :
-    Gen.Code.editorInsertTableOpts cxA ed pos data width o = ed.insertTableOpts cxA pos data width o :=
-  editorInsertTableOpts_regenerated cxA h cxA_WF ed pos data width o
-
-end RosedVerif.GenCodeEq
+import RosedVerif.Model.GenEq.InstA
